@@ -286,11 +286,11 @@ class Generator:
                     raise GenError(f'lost-anchor: R7 operator site "{rw[1]}" not found in {u.fnpath}')
                 applied.append(f'R7 {rw[1]} -> {func} x{n}')
             elif kind == 'RCALL':
-                # method call `recv.method(args)` -> func(recv, args) at sites with that method and receiver text
+                # method call `recv.method(args)` -> func(recv, args) at sites with that method and receiver text (`*` = any receiver)
                 meth, recv_want, func = rw[1], normtok(rw[2]), rw[3]
                 n = 0
                 for c in fn['calls']:
-                    if inside(c['span'], span) and c['method'] == meth and normtok(src[c['recv'][0]:c['recv'][1]].decode()) == recv_want:
+                    if inside(c['span'], span) and c['method'] == meth and (recv_want == '*' or normtok(src[c['recv'][0]:c['recv'][1]].decode()) == recv_want):
                         full = text_of(c['span'][0], c['span'][1])
                         recv = text_of(c['recv'][0], c['recv'][1])
                         rest = full[len(recv):]
